@@ -117,7 +117,7 @@ def run_mode_case(acc: Acc, case):
     p, s = case["power"], case["soc"]
     emulated = mode in (OperationMode.ECO_CHARGE, OperationMode.ECO_DISCHARGE)
     if emulated or case["prior"] not in ("off", "zeros", "type0-off"):
-        acc.nontrivial(variant, int(mode), p, s, case["prior"], case.get("others"))
+        acc.nontrivial(variant, int(mode), p, s, case["prior"], case.get("others"), repr(case.get("before")))
     modes = run_sync(inv.get_operation_modes(True))
     if mode not in modes:
         return []
@@ -125,6 +125,24 @@ def run_mode_case(acc: Acc, case):
     prior_class = pc.split("-")[0] if pc.startswith(("type", "months", "days")) else ("fulltime-charge" if pc.startswith("fulltime-charge") else pc)
     undecodable_prior = pc in ("garbage", "ones")
     key = "C19|%s|%s" % (fam, "emulated" if emulated else mode.name)
+    for (m0, p0, s0) in case.get("before", ()):
+        # earlier successful calls on the same object / inverter (e.g. the same mode and power with another SoC target)
+        if OperationMode(m0) in modes:
+            try:
+                run_sync(inv.set_operation_mode(OperationMode(m0), p0, s0))
+            except ValueError:
+                pass
+    if case.get("before"):
+        # what matters for the call under test is what group 1 holds NOW (same classes as the static priors, so that one root
+        # cause keeps one bucket key)
+        raw0 = b"".join(get(groups[0] + i).to_bytes(2, "big") for i in range(nregs))
+        try:
+            f0 = rs.schedule_fields(raw0) if v2 else rs.eco_v1_fields(raw0)
+            pw0 = rs.schedule_power(f0["schedule_type"], f0["power"]) if v2 else f0["power"]
+            if (f0["start_h"], f0["start_m"], f0["end_h"], f0["end_m"]) == (0, 0, 23, 59) and f0["day_bits"] in (127, -1) and f0["on_off"] < 0 and pw0:
+                prior_class = "fulltime-charge" if pw0 < 0 else "fulltime-discharge"
+        except rs.Undecodable:
+            pass
     try:
         run_sync(inv.set_operation_mode(mode, p, s))
     except ValueError as ex:
@@ -265,6 +283,11 @@ def mode_job(job):
                 for (p, s) in (grid if mode in (OperationMode.ECO_CHARGE, OperationMode.ECO_DISCHARGE) else grid[:2]):
                     case = {"variant": variant, "mode": int(mode), "power": p, "soc": s, "prior": prior, "others": others}
                     _apply(acc, case, run_mode_case)
+                    if mode in (OperationMode.ECO_CHARGE, OperationMode.ECO_DISCHARGE) and others == prior and prior in ("off", "fulltime-charge", "type0-on"):
+                        # the call under test follows earlier set_operation_mode calls (same mode / power, other SoC; other mode)
+                        for before in ([[int(mode), p, (s + 40) % 101]], [[int(mode), (p % 100) + 1, s]], [[int(mode), p, s], [1, 0, 0]],
+                                       [[98 if int(mode) == 99 else 99, p, s]], [[3, 0, 0], [int(mode), p, 100 - s]]):
+                            _apply(acc, dict(case, before=before), run_mode_case)
                     if len(acc.samples) < 1 and mode == OperationMode.ECO_CHARGE and prior == "unset":
                         acc.sample(case)
     return acc
@@ -325,7 +348,9 @@ def hyp_job(job):
         v2 = variant in ("ET-v2", "ET-v2-nopeak", "ET-745", "ES-v2")
         priors = sorted(PRIORS_V2 if v2 else PRIORS_V1)
         return {"variant": variant, "mode": draw(st.sampled_from((0, 1, 2, 3, 4, 5, 98, 99, 98, 99))), "power": draw(st.integers(1, 100)),
-                "soc": draw(st.integers(0, 100)), "prior": draw(st.sampled_from(priors)), "others": draw(st.sampled_from(priors))}
+                "soc": draw(st.integers(0, 100)), "prior": draw(st.sampled_from(priors)), "others": draw(st.sampled_from(priors)),
+                "before": draw(st.lists(st.tuples(st.sampled_from((0, 1, 2, 3, 4, 5, 98, 99, 98, 99)), st.sampled_from((1, 37, 50, 100)),
+                                                  st.sampled_from((0, 20, 81, 100))).map(list), max_size=2))}
 
     def body(case):
         if len(acc.samples) < 3:
